@@ -79,6 +79,13 @@ def paste_eligibility(prog: Program) -> List[Instance]:
                                 f"`{short(r)}` is only reached with guard {g}" if ok else
                                 f"`{short(r)}` can be reached without the {g} guard: paste would be reported for a transform that is not a whole-pixel shift with integer scale",
                                 cp.where(r), path=[f"path conditions at return: {[short(e, 60) + '=' + str(p) for e, p in cs]}"] if not ok else []))
+    # the rotation/shear guard must use its own (tight) tolerance, not one of the paste tolerances
+    for n in walk_own(cp.node):
+        if isinstance(n, ast.Call) and call_name(n) == "is_affine_st":
+            extra_args = list(n.args[1:]) + [k.value for k in n.keywords]
+            weak = [short(a) for a in extra_args if names_in(a) & set(pp)]
+            out.append(Instance("R-GUARDSEQ", f"{cp.qual}#paste:rotation-tolerance", BAD if weak else OK,
+                                f"`{short(n)}` relaxes the rotation/shear test to {weak}: slightly rotated grids are reported paste-able" if weak else "rotation/shear test keeps its own tolerance", cp.where(n)))
     # the unit-scale guard must test both axes and use abs(abs(s) - 1) > stol
     for n in walk_own(cp.node):
         if isinstance(n, ast.If) and isinstance(n.test, ast.Call) and call_name(n.test) == "any" and "stol" in names_in(n.test):
